@@ -14,7 +14,7 @@ RULE = ("size vectors: complete grid K<=4 (thorough K<=5), sizes 0..3m+2, m in {
         "consecutive calls; non-trivial = distinct (sizes, m, spread pattern) with at least one refill or a donor-shortage error")
 ASSUMPTIONS = ["reference: order-free sequential model (capacity floor(s/m)-1 for s>=2m); which points are drawn is unconstrained",
                "spread = Frobenius norm of computed_covariance; ties leave donor order unconstrained"]
-SHARD_TIMEOUT = {"quick": 600, "thorough": 3000}
+SHARD_TIMEOUT = {"quick": 300, "thorough": 3000}
 
 
 E2E_MIX = {"single:repop": 5, "single:small": 2, "single:empty_final": 2, "joint:repop": 1}
